@@ -9,7 +9,10 @@ def pn_eval(ctx, items):
     for d, R, xs in items:
         ns = len(gen.wfsa_states(d)) + 1
         ml = max([len(x) for x in xs] + [0]) + 1
-        if R in ("Boolean", "MaxTimes") or gen.eps_acyclic(d):
+        if R == "Lang":
+            ops.append({"op": "pn", "R": R, "wfsa": d, "n": 5, "xs": xs})     # strings longer than 3 are dropped: 4 arcs suffice
+            deepflags.append(False)
+        elif R in ("Boolean", "MaxTimes") or gen.eps_acyclic(d):
             ops.append({"op": "pn", "R": R, "wfsa": d, "n": ml * ns + 1, "xs": xs})
             deepflags.append(False)
         else:
@@ -20,6 +23,9 @@ def pn_eval(ctx, items):
     for r, deep in zip(res, deepflags):
         if "error" in r:
             raise common.DriverError(r["error"])
+        if r["vals"] and isinstance(r["vals"][0], list) and (not r["vals"][0] or isinstance(r["vals"][0][0], str)):
+            out.append((r["vals"], [True] * len(r["vals"]), False))      # language weights: exact
+            continue
         vals = [common.dec_float(v) for v in r["vals"]]
         half = [common.dec_float(v) for v in r["half"]]
         conv = [(not deep) or common.close(o, h, 1e-12, 1e-15) for o, h in zip(vals, half)]
